@@ -9,7 +9,18 @@ import gen_bases as _gb
 from props.c06_radix import to_digits, cpl_of, is_pow2, rand_value, thresholds
 
 LEAN_MODULES = ["MpirProofs.Props.C06_dc"]
-THEOREMS = []
+THEOREMS = [
+    "Mpir.RadixDc.dc_tables_ok",
+    "Mpir.RadixDc.dc_thresholds_ok",
+    "Mpir.RadixDc.powtab_ok",
+    "Mpir.RadixDc.set_powtab_ok",
+    "Mpir.RadixDc.dc_get_str_digits",
+    "Mpir.RadixDc.dc_set_str_val",
+    "Mpir.RadixDc.mpn_get_str_spec_partial",
+    "Mpir.RadixDc.mpn_get_str_full_spec_partial",
+    "Mpir.RadixDc.mpn_set_str_spec",
+    "Mpir.RadixDc.mpn_set_str_full_spec",
+]
 PINS = [("mpn/generic/get_str.c", "mpn_get_str"), ("mpn/generic/get_str.c", "mpn_dc_get_str"),
         ("mpn/generic/get_str.c", "mpn_sb_get_str"),
         ("mpn/generic/set_str.c", "mpn_set_str"), ("mpn/generic/set_str.c", "mpn_set_str_compute_powtab"),
@@ -20,7 +31,7 @@ PINS = [("mpn/generic/get_str.c", "mpn_get_str"), ("mpn/generic/get_str.c", "mpn
 TRUSTED = ["hand-written dc models lean/Mpir/Model/RadixDc.lean tied by correspondence (digits / limbs as returned; the set_str power table entry by entry); "
            "mpn_sqr, mpn_mul, mpn_mul_1, mpn_divexact_1, mpn_tdiv_qr, mpn_add_n inside the dc code by their arithmetic meaning; "
            "the binary64 evaluation of xn (get_str.c:412) as exact rational + round-to-nearest-even"]
-ASSUMPTIONS = ["mpn_get_str above GET_STR_PRECOMPUTE_THRESHOLD is proved for operands below 2^32 limbs (mpn_get_str_spec_partial): the table size xn comes from a "
+ASSUMPTIONS = ["mpn_get_str above GET_STR_PRECOMPUTE_THRESHOLD is proved for operands of at most 2^36 limbs (mpn_get_str_spec_partial): the table size xn comes from a "
                "binary64 product and cannot be certified for unbounded sizes",
                "scratch and table allocations of the dc code (powtab_mem, tmp; the ASSERT_ALWAYS on powtab_mem_ptr) are outside the value-level model (C04)"]
 RULE = ("dc conversions: operand sizes ±2 limbs around GET_STR_DC/PRECOMPUTE thresholds and their doubles, digit counts ±2 around SET_STR_DC/PRECOMPUTE "
